@@ -44,6 +44,8 @@ type c03World struct {
 	expired map[int64]bool
 	conns   []*c03Conn
 	all     map[string]*c03Conn // every connection ever opened in this world, by connID
+	banned  map[string]bool
+	black   map[string]bool
 	run     *vk.Run
 	trace   []string
 }
@@ -53,7 +55,7 @@ func c03NewWorld(t *testing.T, run *vk.Run) *c03World {
 	bf := &security.BruteForceConfig{MaxFailures: 1000, TimeWindow: time.Hour, BanDuration: time.Hour, PermanentBanAt: 100000, CleanupInterval: time.Hour}
 	rl := &security.RateLimitConfig{Rate: 100000, Burst: 100000, TTL: time.Hour}
 	n := newMiniNode(t, miniOpts{BruteForce: bf, RateLimit: rl})
-	w := &c03World{n: n, secret: map[int64]string{}, expired: map[int64]bool{}, run: run, all: map[string]*c03Conn{}}
+	w := &c03World{n: n, secret: map[int64]string{}, expired: map[int64]bool{}, run: run, all: map[string]*c03Conn{}, banned: map[string]bool{}, black: map[string]bool{}}
 	// two provisioned clients A and B (secrets recorded from their first-connect replies)
 	for i := 0; i < 3; i++ {
 		c := n.NewClient("")
@@ -97,14 +99,46 @@ func (w *c03World) observe(cc *c03Conn) (auth bool, id int64) {
 	return true, k.GetClientID()
 }
 
+// blocked is the monitor's own model of the address gates: thresholds and
+// durations are configured so that bans/blacklist entries exist only through the
+// explicit events below (1 h or permanent), never through expiry within a run.
 func (w *c03World) blocked(ip string) bool {
-	if b, _ := w.n.BFP.IsBanned(ip); b {
-		return true
+	return w.banned[ip] || w.black[ip]
+}
+
+func (w *c03World) ban(ip string) {
+	w.n.BFP.BanIP(ip, time.Hour, "verif")
+	w.banned[ip] = true
+	w.trace = append(w.trace, "ban "+ip)
+}
+func (w *c03World) unban(ip string) {
+	w.n.BFP.UnbanIP(ip)
+	delete(w.banned, ip)
+	w.trace = append(w.trace, "unban "+ip)
+}
+func (w *c03World) blacklist(ip string, permanent bool) {
+	d := time.Hour
+	if permanent {
+		d = 0
 	}
-	if ok, _ := w.n.IPM.IsAllowed(ip); !ok {
-		return true
+	if err := w.n.IPM.AddToBlacklist(ip, d, "verif", "verif"); err == nil {
+		w.black[ip] = true
 	}
-	return false
+	w.trace = append(w.trace, fmt.Sprintf("blacklist %s permanent=%v", ip, permanent))
+}
+func (w *c03World) unblacklist(ip string) {
+	w.n.IPM.RemoveFromBlacklist(ip)
+	delete(w.black, ip)
+	w.trace = append(w.trace, "unblacklist "+ip)
+}
+
+// restartIPManager models a server restart of the address-list component: a new
+// IPManager is created on the same (persisted) storage and wired into the handler.
+func (w *c03World) restartIPManager() {
+	ipm := security.NewIPManager(w.n.Store, w.n.ctx)
+	w.n.IPM = ipm
+	w.n.Auth.ipManager = ipm
+	w.trace = append(w.trace, "restart-ipmanager")
 }
 
 // step sends one message and runs the monitor. kind encodes the message.
@@ -462,21 +496,20 @@ func TestVerifC03Random(t *testing.T) {
 		for i := 0; i < n; i++ {
 			ci := r.Intn(len(conns))
 			cc := conns[ci]
-			switch r.Intn(14) {
+			switch r.Intn(15) {
 			case 0:
-				w.n.BFP.BanIP(cc.ip, time.Hour, "verif")
-				w.trace = append(w.trace, "ban "+cc.ip)
+				w.ban(cc.ip)
 				run.Count("ban_events", 1)
 			case 1:
-				w.n.BFP.UnbanIP(cc.ip)
-				w.trace = append(w.trace, "unban "+cc.ip)
+				w.unban(cc.ip)
 			case 2:
-				_ = w.n.IPM.AddToBlacklist(cc.ip, time.Hour, "verif", "verif")
-				w.trace = append(w.trace, "blacklist "+cc.ip)
+				w.blacklist(cc.ip, r.Intn(2) == 0)
 				run.Count("blacklist_events", 1)
 			case 3:
-				w.n.IPM.RemoveFromBlacklist(cc.ip)
-				w.trace = append(w.trace, "unblacklist "+cc.ip)
+				w.unblacklist(cc.ip)
+			case 14:
+				w.restartIPManager()
+				run.Count("ipmanager_restarts", 1)
 			case 4:
 				// reconnect: close and reopen from the same address
 				cc.c.CloseByPeer()
